@@ -51,6 +51,8 @@ pub enum DAct {
     /// NewEpoch without advancing time
     NewEpochEarly,
     Inflow { amount: u64 },
+    /// an inflow on the scale of an 18-decimals asset: 3e19 base units (above 2^64), freshly minted to the sender
+    BigInflow,
     Bond { user: String, amount: u64 },
     Unbond { user: String, part: String },
     Claim { user: String },
@@ -179,6 +181,12 @@ impl Scenario for DistScn {
             DAct::Inflow { amount } => {
                 w.exec_cosmos(MALLORY, BankMsg::Send { to_address: h.collector.clone(), amount: vec![coin(*amount as u128, denom)] }.into()).expect("inflow");
                 cx.count("inflow");
+            }
+            DAct::BigInflow => {
+                let amt = 30_000_000_000_000_000_000u128;
+                w.mint_native(MALLORY, amt, denom);
+                w.exec_cosmos(MALLORY, BankMsg::Send { to_address: h.collector.clone(), amount: vec![coin(amt, denom)] }.into()).expect("big inflow");
+                cx.count("inflow:above_2^64");
             }
             DAct::Bond { user, amount } => {
                 let r = w.exec(user, &h.lair, &LairExec::Bond { asset: asset(&native(denom), *amount as u128) }, &[coin(*amount as u128, denom)]);
